@@ -393,7 +393,7 @@ def accepted_lengths(pattern: str, flags: int, alphabet: str, max_len: int, mode
     for q, p, q2 in nfa.trans:
         by_src.setdefault(q, []).append((p, q2))
 
-    def closure(states, at_begin, can_end):
+    def closure(states, at_begin, can_end, strict_ok=True):
         out = set(states)
         work = list(states)
         while work:
@@ -402,6 +402,8 @@ def accepted_lengths(pattern: str, flags: int, alphabet: str, max_len: int, mode
                 if kind == "begin" and not at_begin:
                     continue
                 if kind in ("end", "end_strict") and not can_end:
+                    continue
+                if kind == "end_strict" and not strict_ok:
                     continue
                 if q2 not in out:
                     out.add(q2)
@@ -416,6 +418,10 @@ def accepted_lengths(pattern: str, flags: int, alphabet: str, max_len: int, mode
         fin_now = fin in closure(cur, k == 0, True)
         if fin_now:
             result.add(k)
+        # `$` also matches just before a final newline: k characters, then "\n"
+        if 10 in codes and k + 1 <= max_len and fin in closure(cur, k == 0, True, strict_ok=False) and (
+                mode != "fullmatch"):
+            result.add(k + 1)
         if k == max_len:
             break
         nxt = set()
